@@ -244,6 +244,7 @@ impl<Context: ServerContext> HttpRouter<Context> {
         let mut all_segments = all_segments.into_iter();
         let mut varnames: BTreeSet<String> = BTreeSet::new();
 
+        let methodname = method.as_str().to_uppercase();
         let mut node: &mut Box<HttpRouterNode<Context>> = &mut self.root;
         while let Some(raw_segment) = all_segments.next() {
             let segment = PathSegment::from(raw_segment);
@@ -338,6 +339,17 @@ impl<Context: ServerContext> HttpRouter<Context> {
 
                     insert_var(&path, &mut varnames, &new_varname);
 
+                    // The wildcard also matches the empty remainder, i.e.,
+                    // the path of this node itself.
+                    if let Some(handlers) = node.methods.get(&methodname) {
+                        check_wildcard_conflict(
+                            &path,
+                            &methodname,
+                            handlers,
+                            &endpoint.versions,
+                        );
+                    }
+
                     let edges = node.edges.get_or_insert(
                         HttpRouterEdges::VariableRest(
                             new_varname.clone(),
@@ -390,7 +402,20 @@ impl<Context: ServerContext> HttpRouter<Context> {
             };
         }
 
-        let methodname = method.as_str().to_uppercase();
+        // A wildcard below this node also matches this node's own path.
+        if let Some(HttpRouterEdges::VariableRest(_, wildcard_node)) =
+            &node.edges
+        {
+            if let Some(handlers) = wildcard_node.methods.get(&methodname) {
+                check_wildcard_conflict(
+                    &path,
+                    &methodname,
+                    handlers,
+                    &endpoint.versions,
+                );
+            }
+        }
+
         let existing_handlers =
             node.methods.entry(methodname.clone()).or_default();
 
@@ -496,24 +521,40 @@ impl<Context: ServerContext> HttpRouter<Context> {
             })?
         }
 
-        // The wildcard match consumes the implicit, empty path segment
-        match &node.edges {
+        // A wildcard edge also matches the implicit, empty path segment, so
+        // this path is served by this node and by its wildcard node (if any).
+        let wildcard = match &node.edges {
             Some(HttpRouterEdges::VariableRest(varname, new_node)) => {
-                variables
-                    .insert(varname.clone(), VariableValue::Components(vec![]));
                 // There should be no outgoing edges
                 assert!(new_node.edges.is_none());
-                node = new_node;
+                Some((varname, new_node))
             }
-            _ => {}
-        }
+            _ => None,
+        };
 
-        // First, look for a matching implementation.
+        // First, look for a matching implementation.  Handlers registered for
+        // exactly this path and handlers registered for the wildcard never
+        // overlap (that's checked by `insert()`).
         let methodname = method.as_str().to_uppercase();
-        if let Some(handler) = find_handler_matching_version(
+        let found = find_handler_matching_version(
             node.methods.get(&methodname).map(|v| v.as_slice()).unwrap_or(&[]),
             version,
-        ) {
+        )
+        .or_else(|| {
+            let (varname, wildcard_node) = wildcard?;
+            let handler = find_handler_matching_version(
+                wildcard_node
+                    .methods
+                    .get(&methodname)
+                    .map(|v| v.as_slice())
+                    .unwrap_or(&[]),
+                version,
+            )?;
+            variables
+                .insert(varname.clone(), VariableValue::Components(vec![]));
+            Some(handler)
+        });
+        if let Some(handler) = found {
             return Ok(RouterLookupResult {
                 handler: Arc::clone(&handler.handler),
                 endpoint: RequestEndpointMetadata {
@@ -529,7 +570,12 @@ impl<Context: ServerContext> HttpRouter<Context> {
         // We're going to report a 404 ("Not Found") or 405 ("Method Not
         // Allowed").  It's a 405 if there are any handlers matching this path
         // and version for a different method.  It's a 404 otherwise.
-        if node.methods.values().any(|handlers| {
+        let methods = || {
+            node.methods
+                .iter()
+                .chain(wildcard.iter().flat_map(|(_, n)| n.methods.iter()))
+        };
+        if methods().any(|(_, handlers)| {
             find_handler_matching_version(handlers, version).is_some()
         }) {
             let mut err = HttpError::for_client_error_with_status(
@@ -548,7 +594,7 @@ impl<Context: ServerContext> HttpRouter<Context> {
             if let Some(hdrs) = err.headers.as_deref_mut() {
                 hdrs.reserve(node.methods.len());
             }
-            for (allowed, handlers) in node.methods.iter() {
+            for (allowed, handlers) in methods() {
                 // Only methods that are served at this version are allowed.
                 if find_handler_matching_version(handlers, version).is_none() {
                     continue;
@@ -591,6 +637,24 @@ where
     C: ServerContext,
 {
     handlers.into_iter().find(|h| h.versions.matches(version))
+}
+
+/// Panic if a handler for a path and a handler for a wildcard that also matches
+/// that path (with an empty remainder) would serve the same method and version.
+fn check_wildcard_conflict<C: ServerContext>(
+    path: &str,
+    methodname: &str,
+    handlers: &[ApiEndpoint<C>],
+    versions: &ApiEndpointVersions,
+) {
+    if handlers.iter().any(|h| h.versions.overlaps_with(versions)) {
+        panic!(
+            "URI path \"{}\": attempted to register handlers for method \
+             \"{}\" both for a path and for a wildcard that matches the \
+             same path, with overlapping version ranges",
+            path, methodname
+        );
+    }
 }
 
 /// Insert a variable into the set after checking for duplicates.
